@@ -61,7 +61,7 @@ type pipeCase struct {
 }
 
 var pipeHosts = map[string]string{
-	"origin": "origin.test", "denied": "denied.test", "deniedUpper": "WWW.DENIED.TEST", "denyExcl": "excl.denied.test",
+	"origin": "origin.test", "denied": "denied.test", "deniedUpper": "WWW.DENIED.TEST", "deniedWide": "\uff44\uff45\uff4e\uff49\uff45\uff44.test", "denyExcl": "excl.denied.test",
 	"direct": "direct.test", "directUpper": "WWW.DIRECT.TEST", "directExcl": "excl.direct.test",
 	"other":  "other.test",
 	"lhName": "localhost", "lhUpper": "LOCALHOST", "lo4": "127.0.0.1", "lo4b": "127.9.9.9", "lo6": "[::1]",
@@ -73,7 +73,7 @@ var pipeHosts = map[string]string{
 }
 
 // pipeDialed: the spelling under which a host is dialled when it is not the one the client used.
-var pipeDialed = map[string]string{"lhWide": "localhost", "lo4Ideo": "127.0.0.1"}
+var pipeDialed = map[string]string{"lhWide": "localhost", "lo4Ideo": "127.0.0.1", "deniedWide": "denied.test"}
 
 func localhostAlias() string {
 	f, err := os.Open("/etc/hosts")
